@@ -31,7 +31,7 @@ func c05One(c *core.Ctx, cs srcCase) {
 func c05Run(c *core.Ctx) {
 	level := 3
 	if c.Thorough() {
-		level = 5
+		level = 6
 	}
 	multi := []string{"\n", " /* a\n b */ ", "\r\n//c\r\n"}
 	for _, fam := range []string{"php7", "php5"} {
